@@ -15,6 +15,9 @@
 //!   J eqstruct / ordlaws / cloneeq        the specification judges the library's answers
 //! Everything runs under `catch_unwind` (`PANIC` is an answer).
 //!
+//! (History: before the fixes e7035cf1 / 150fe1e9 the thresh-k, thresh-arity and multi-arity
+//! neighbours failed; their canonical witnesses are now fixed regression inputs.)
+//!
 //! A pair that FAILS the judge is shrunk (descend to the differing child, drop / replace common
 //! children by canonical leaves, lower k, renumber keys, all while it keeps failing on the real
 //! library with well-typed objects) and the J line is written for the shrunk pair, so that
@@ -565,8 +568,10 @@ fn emit_clone(e: &mut Emit, ctx: CtxK, a: &Node) {
 
 /* ------------------------------------------------------------ fixed witness list */
 
-/// pairs that are always checked verbatim (no shrinking): the classic shapes of the two known
-/// defects and their neighbours, in every context
+/// regression inputs, always checked verbatim (no shrinking) and judged like every other pair:
+/// the witness pairs of the two defects fixed in e7035cf1 (`Terminal::eq` ignored k and arity of
+/// thresh) and 150fe1e9 (`Ord for Terminal` never compared the number of children: `Equal` for
+/// different widths, or `unreachable!`), and their neighbours, in every context
 fn witness_pairs(base: u32) -> Vec<(Node, Node)> {
     use Node::*;
     let th = |k: usize, n: usize| Thresh(k, (0..n).map(|i| if i == 0 { pk(base) } else { spk(base + i as u32) }).collect());
